@@ -27,6 +27,7 @@ type Hint struct {
 	Type   int    `json:"type"`   // 3 PA-PW-SALT, 11 PA-ETYPE-INFO, 19 PA-ETYPE-INFO2
 	Salt   string `json:"salt"`   // hex
 	Params string `json:"params"` // hex, ETYPE-INFO2 only, "" = absent
+	NoSalt bool   `json:"no_salt,omitempty"` // ETYPE-INFO / ETYPE-INFO2 entry without the optional salt field: the default salt applies
 }
 
 // Case covers all sub-checks of C08.
@@ -200,9 +201,16 @@ func evalPAData(c Case) evid.Verdict {
 		case 3:
 			val = salt
 		case 11:
-			val = der.ETypeInfo.MustEncode([]any{der.M{"etype": int64(c.EType), "salt": salt}})
+			e := der.M{"etype": int64(c.EType), "salt": salt}
+			if h.NoSalt {
+				delete(e, "salt")
+			}
+			val = der.ETypeInfo.MustEncode([]any{e})
 		case 19:
 			e := der.M{"etype": int64(c.EType), "salt": string(salt)}
+			if h.NoSalt {
+				delete(e, "salt")
+			}
 			if h.Params != "" {
 				e["s2kparams"] = unhex(h.Params)
 			}
@@ -216,7 +224,9 @@ func evalPAData(c Case) evid.Verdict {
 	salt := c.Realm + strings.Join(strings.Split(c.CName, "/"), "")
 	var params []byte
 	if best >= 0 {
-		salt = string(unhex(chosen.Salt))
+		if !chosen.NoSalt {
+			salt = string(unhex(chosen.Salt))
+		}
 		if chosen.Type == 19 && chosen.Params != "" {
 			params = unhex(chosen.Params)
 		}
@@ -480,32 +490,44 @@ func TestProp(t *testing.T) {
 		judge("rtk", c, "rtk|"+c.In, t, "rtk:random")
 	})
 
-	r.Rule("padata: every subset and permutation of {PA-PW-SALT, PA-ETYPE-INFO, PA-ETYPE-INFO2} (16 sequences) with pairwise different salts, single matching-etype entries, optional s2kparams; non-trivial = >= 2 hints")
+	r.Rule("padata: every subset and permutation of {PA-PW-SALT, PA-ETYPE-INFO, PA-ETYPE-INFO2} (16 sequences) with pairwise different salts, each ETYPE-INFO / ETYPE-INFO2 entry with or without its optional salt field (absent = default salt; 45 sequences in all), single matching-etype entries, optional s2kparams; non-trivial = >= 2 hints")
 	perms := [][]int{{}, {3}, {11}, {19}, {3, 11}, {11, 3}, {3, 19}, {19, 3}, {11, 19}, {19, 11},
 		{3, 11, 19}, {3, 19, 11}, {11, 3, 19}, {11, 19, 3}, {19, 3, 11}, {19, 11, 3}}
 	type pj struct {
-		et   int32
-		perm []int
-		k    int
+		et     int32
+		perm   []int
+		k      int
+		noSalt int // bit i set: the i-th hint (if an ETYPE-INFO or ETYPE-INFO2) carries no salt
 	}
 	pjobs := []pj{}
 	for _, et := range ref.ETypes {
 		for _, p := range perms {
-			for k := 0; k < r.N(1, 6); k++ {
-				pjobs = append(pjobs, pj{et, p, k})
+			for mask := 0; mask < 1<<len(p); mask++ {
+				ok := true
+				for i, ty := range p {
+					if mask&(1<<i) != 0 && ty == 3 {
+						ok = false // PA-PW-SALT is nothing but a salt
+					}
+				}
+				if !ok {
+					continue
+				}
+				for k := 0; k < r.N(1, 6); k++ {
+					pjobs = append(pjobs, pj{et, p, k, mask})
+				}
 			}
 		}
 	}
 	evid.Parallel(len(pjobs), 16, func(i int) {
 		j := pjobs[i]
-		lbl := fmt.Sprintf("pa/%d/%v/%d", j.et, j.perm, j.k)
+		lbl := fmt.Sprintf("pa/%d/%v/%d/%d", j.et, j.perm, j.k, j.noSalt)
 		c := Case{Kind: "padata", EType: j.et, Realm: "EXAMPLE.COM", CName: "alice/admin",
 			Password: hex.EncodeToString([]byte("pässwörd-" + hex.EncodeToString(kgen.DetBytes(r.Seed(), lbl, 3))))}
 		if j.et == ref.RC4 {
 			c.Password = hex.EncodeToString([]byte("password-" + hex.EncodeToString(kgen.DetBytes(r.Seed(), lbl, 3))))
 		}
-		for _, ty := range j.perm {
-			h := Hint{Type: ty, Salt: hex.EncodeToString([]byte(fmt.Sprintf("SALT%d-%x", ty, kgen.DetBytes(r.Seed(), lbl+"/s", 2))))}
+		for hi, ty := range j.perm {
+			h := Hint{Type: ty, NoSalt: j.noSalt&(1<<hi) != 0, Salt: hex.EncodeToString([]byte(fmt.Sprintf("SALT%d-%x", ty, kgen.DetBytes(r.Seed(), lbl+"/s", 2))))}
 			if ty == 19 && j.et != ref.DES3 && j.et != ref.RC4 && (j.k%2 == 0) {
 				h.Params = fmt.Sprintf("%08x", 1+int(kgen.DetBytes(r.Seed(), lbl+"/p", 1)[0]))
 			}
@@ -515,9 +537,13 @@ func TestProp(t *testing.T) {
 		if len(j.perm) >= 2 {
 			nt = "padata|" + lbl
 		}
-		judge("padata", c, nt, nil, fmt.Sprintf("hints%d", len(j.perm)), fmt.Sprintf("etype%d", j.et))
+		saltless := "all-hints-carry-a-salt"
+		if j.noSalt != 0 {
+			saltless = "some-hint-without-salt"
+		}
+		judge("padata", c, nt, nil, fmt.Sprintf("hints%d", len(j.perm)), fmt.Sprintf("etype%d", j.et), saltless)
 	})
-	r.Exhaustive("PA-data: all 16 ordered subsets of the three hint types x six etypes")
+	r.Exhaustive("PA-data: all 16 ordered subsets of the three hint types x salt present/absent per ETYPE-INFO(2) entry x six etypes")
 
 	r.Rule("genkey: GenerateEncryptionKey and GenerateSeqNumberAndSubKey(GetKeyByteSize) for every etype: RFC key length, usable for encrypt/decrypt/checksum, decryptable by the reference")
 	for _, et := range ref.ETypes {
